@@ -28,6 +28,24 @@ def fresh_case(sc):
         kopf.on.event(GROUP, VERSION, PLURAL, registry=reg, id='w')(w)
         kopf.on.create(GROUP, VERSION, PLURAL, registry=reg, id='a')(sim.handler('a'))
         kopf.on.update(GROUP, VERSION, PLURAL, registry=reg, id='a')(sim.handler('a'))
+        conflict = sc.get('conflict')
+        if conflict:
+            # `conflict` = t: the object is deleted at t; its (slow) deletion handler is still running when a foreign edit is made (that
+            # older view queues up behind); the cycle then sends a merge-patch AND the finalizer's JSON-patch, and another foreign write
+            # lands exactly between the two: the JSON-patch is refused (422), the merge-patch was applied -- the barrier is for IT
+            kopf.on.delete(GROUP, VERSION, PLURAL, registry=reg, id='a')(sim.handler('a', duration=2, default=('ok', {'bye': 1})))      # (a result: the cycle has a merge-patch)
+            hit = {'done': False}
+
+            def cpolicy(req):
+                r_ = req.route
+                if r_.get('plural') == PLURAL and r_.get('kind') == 'patch' and r_.get('ptype') == 'json' and sim.now >= conflict and not hit['done']:
+                    hit['done'] = True
+                    if sim.obj('o1') is not None:
+                        sim.edit('o1', lambda o: o.setdefault('spec', {}).update(z=1), actor='foreign')
+                return None
+            sim.srv.policy = cpolicy
+            sim.world.at(conflict, lambda: sim.delete('o1') if sim.obj('o1') is not None else None, 1)
+            sim.world.at(conflict + 1, lambda: sim.edit('o1', lambda o: o.setdefault('spec', {}).update(y=1), actor='foreign') if sim.obj('o1') is not None else None, 1)
         L = sc['lag']
 
         def watch_policy(wt, line):
@@ -70,6 +88,12 @@ def fresh_case(sc):
         sim.run(sc['end'])
         events = []
         busy_until = -1
+        # a line that arrives while a (slow) handler of the object is running waits for it: per-object processing is serial
+        busy: list[tuple[float, float]] = []
+        opened: dict[str, float] = {}
+        for e in sim.recorder.events:
+            if e['ev'] == 'h.enter' and e.get('id') == 'a': opened['a'] = e['t']
+            elif e['ev'] == 'h.exit' and e.get('id') == 'a' and 'a' in opened: busy.append((opened.pop('a'), e['t']))
         for e in sim.recorder.events:
             if e['ev'] == 'srv.req' and e.get('kind') == 'patch' and e.get('plural') == PLURAL and e.get('loop') == 'op1' and e.get('code') == 200 and e.get('changed'):
                 events.append({'ev': 'patch', 't': e['t'], 'rv': e['rv_after']})
@@ -78,7 +102,7 @@ def fresh_case(sc):
             elif e['ev'] == 'h.enter' and e.get('id') == 'w':
                 events.append({'ev': 'winv', 't': e['t'], 'rv': e.get('rv') or 0})
             elif e['ev'] == 'srv.watch.line' and e.get('res') == PLURAL and e.get('loop') == 'op1' and e.get('rv') is not None:
-                events.append({'ev': 'line', 't': e['t'], 'rv': e['rv'], 'idle': True})
+                events.append({'ev': 'line', 't': e['t'], 'rv': e['rv'], 'idle': not any(b0 <= e['t'] <= b1 and b1 > b0 for b0, b1 in busy)})
         # a line finds the worker idle unless the worker is inside the consistency wait / a sleep of an earlier cycle at that instant
         # (the wait is woken by the arrival, so the raw handler still runs in the same instant)
         op.finish()
@@ -95,6 +119,10 @@ def fresh_scenarios(seed, n):
         edits = sorted(rnd.sample(range(3, 40), rnd.randint(1, 8)))
         out.append({'id': f'fresh-{seed}-{k}', 'lag': rnd.choice([0, 1, 1, 2, 3, 6]), 'timeout': rnd.choice([2, 5, 5]), 'mirror': rnd.random() < 0.7,
                     'edits': edits, 'end': 70})
+        if k % 8 == 2:          # a 422 between the merge-patch and the JSON-patch of the deleting cycle, an older view queued behind
+            r2 = random.Random(f'fresh-conflict-{seed}-{k}')
+            tc = r2.randint(6, 40)
+            out[-1].update(lag=0, timeout=r2.choice([5, 8]), conflict=tc, edits=[e_ for e_ in edits if e_ < tc - 2], mirror=False)
         if k % 4 == 1:          # the echo is slower than the idle timeout of the workers: the barrier must outlive an idle worker
             r2 = random.Random(f'fresh-idle-{seed}-{k}')
             out[-1].update(idle=r2.choice([1, 2]), lag=r2.choice([3, 4, 6]), timeout=r2.choice([5, 8]))
